@@ -4,12 +4,13 @@ spec/regfile/RegFile.tla        the flat array-of-cells model (operand -> cells 
 spec/regfile/RegStore.tla       the two physical stores shaped like the code (shared timing files addressed by
                                 wavefront offsets and lane stride, private emulation files, vcc/exec as masked
                                 64-bit fields, release zeroing) in lockstep with RegFile
-spec/regfile/MC_RegStore*.cfg   exhaustive: Refines / RYW / Alias / Frame; as-implemented configs must FAIL
+spec/regfile/MC_RegStore*.cfg   exhaustive: Refines / RYW / Alias / Frame / FreshCells; as-implemented configs must FAIL
 spec/regfile/RegFileScen.tla    behaviours -> access histories executed on both real stores
 spec/regfile/RegFileTrace.tla   every answer of the real stores (plus a full re-read of every live register after
                                 every operation, logged as a difference) checked against RegFile
 harness/cmd/c07                 the driver (emu.Wavefront; timing wavefront + CURegFileAccessor + SimpleRegisterFile
-                                of a cu.Builder compute unit, real DispatchWf and s_endpgm release path)
+                                of a cu.Builder compute unit, real DispatchWf and s_endpgm release path;
+                                life.go: work-group lifetimes on a real emu.ComputeUnit, FreshCells)
 """
 import json
 import os
@@ -550,10 +551,14 @@ def run(ctx, selftest=False):
         if zeros:
             raise vlib.Infra('vacuous model: actions never taken in %s: %s' % (cfg, zeros))
     ctx.cov['coverage_zero_actions'] = []
+    # lifetimes: dispatch, write, retire, dispatch again with another register count (FreshCells)
+    r = ctx.tlc_expect_ok(DIRS, 'MC_RegStore.tla', 'MC_RegStore_emu_life.cfg', workers=4, timeout=1200)
+    ctx.log('MC_RegStore_emu_life.cfg: %d distinct states, depth %d' % (r.distinct, r.depth))
     # the pinned tree's deviations must break the model (they are what the traces below demonstrate on the code)
-    for cfg, inv in [('MC_RegStore_asimpl_vcchi.cfg', 'Refines'), ('MC_RegStore_asimpl_halves.cfg', 'Refines')]:
+    for cfg, inv in [('MC_RegStore_asimpl_vcchi.cfg', 'Refines'), ('MC_RegStore_asimpl_halves.cfg', 'Refines'),
+                     ('MC_RegStore_seeded_poolwipe.cfg', 'FreshCells')]:
         r = ctx.tlc(DIRS, 'MC_RegStore.tla', cfg, workers=2, timeout=600, kind='mc_expected_cex')
-        if not r.violated:
+        if inv not in r.violated:
             raise vlib.Infra('as-implemented model %s unexpectedly satisfies every invariant:\n%s' % (cfg, r.out[-1500:]))
         ctx.log('%s: counterexample for %s as expected (%d states)' % (cfg, r.violated, r.distinct))
         ce = r.counterexample()
